@@ -11,6 +11,7 @@ import (
 	"fmt"
 	"io"
 	"net"
+	"os"
 	"sync"
 	"testing"
 	"testing/synctest"
@@ -232,9 +233,12 @@ func runConn(t *testing.T, p Plan) outcome {
 				for _, c := range class {
 					out.class(c)
 				}
-				if bad && inFlight > 0 {
+				if bad {
 					out.nontriv = true
-					out.nBadAlive++
+					if inFlight > 0 {
+						out.nBadAlive++
+						out.class("nt:violation_with_rpc_in_flight")
+					}
 				}
 			}
 			cs.peer.WriteRaw(b)
@@ -287,7 +291,29 @@ func runConn(t *testing.T, p Plan) outcome {
 		}
 		rig.mu.Lock()
 		nconn, ndial := len(rig.conns), rig.dials
+		nstreams := 0
+		for _, c := range rig.conns {
+			nstreams += len(c.peer.Ledger().StreamIDs())
+		}
 		rig.mu.Unlock()
+		if os.Getenv("VERIF_C11_DEBUG") != "" {
+			fmt.Printf("C11DEBUG conns=%d dials=%d streams=%d peerss=%v rs=%v maxhdr=%d static=%v ka=%d badfirst=%v retry=%v rpc0=%+v\n", nconn, ndial, nstreams, p.PeerSS, p.ReadSizes, p.MaxHdr, p.Static, p.KAms, p.BadFirst != nil, p.Retry, p.RPCs[0])
+			for _, r := range recs {
+				if r != nil {
+					fmt.Printf("C11DEBUG rpc %d done=%v code=%v msg=%q at=+%v\n", r.idx, r.done, r.code, r.msg, r.doneAt.Sub(r.start))
+				}
+			}
+		}
+		if !out.nontriv {
+			switch {
+			case nconn == 0:
+				out.class("trivial:never_connected")
+			case nstreams == 0:
+				out.class("trivial:no_stream_ever_opened")
+			default:
+				out.class("trivial:no_violation_reached_a_live_connection")
+			}
+		}
 		if nconn > 1 {
 			out.class("conn:reconnected")
 		}
